@@ -185,8 +185,8 @@ func runC05(c *Ctx) {
 			n        int
 			bg       bool
 			snap     string
-			recvAt   int64 // lines received when the call returned
-			nextSeen bool  // fg: line n+1 had been received before the sample
+			recvAt   int64  // lines received when the call returned
+			nextSeen bool   // fg: line n+1 had been received before the sample
 			snap2    string // fg: a second snapshot taken just before the handler returns ("" = not taken)
 			late     bool   // the handler entered after the harness had begun to end the connection: not judged
 		}
